@@ -738,8 +738,11 @@ func (p *Parser) parseInsertStmt() ast.Statement {
 	}
 
 	if hasBody {
-		p.nextToken() // skip ")"
-		stmt.Block = p.parseBlockStmt()
+		stmt.Block = p.parseBody()
+
+		if !p.expectPeek(token.END) { // move to "@end"
+			return nil
+		}
 	}
 
 	p.inserts[stmt.Name.Value] = stmt
